@@ -418,7 +418,24 @@ fn construct(c: &Value) -> Value {
         "bootloader" => boxed(c, || mk_bootloader(c), id_of::<BootLoaderNameTag>()),
         "module" => boxed(c, || mk_module(c), id_of::<ModuleTag>()),
         "mmap" => boxed(c, || mk_mmap(c), id_of::<MemoryMapTag>()),
-        "framebuffer" => boxed(c, || mk_framebuffer(c), id_of::<FramebufferTag>()),
+        "framebuffer" => {
+            let mut v = boxed(c, || mk_framebuffer(c), id_of::<FramebufferTag>());
+            // read-back through the accessor (on a second instance: boxed() has dropped the first)
+            let t = mk_framebuffer(c);
+            let rb = match catch_unwind(AssertUnwindSafe(|| t.buffer_type())) {
+                Err(_) => json!({"k": "panic"}),
+                Ok(Err(_)) => json!({"k": "err"}),
+                Ok(Ok(FramebufferType::Text)) => json!({"k": "ok", "t": "text"}),
+                Ok(Ok(FramebufferType::RGB { red, green, blue })) => json!({"k": "ok", "t": "rgb",
+                    "v": [red.position, red.size, green.position, green.size, blue.position, blue.size]}),
+                Ok(Ok(FramebufferType::Indexed { palette })) => json!({"k": "ok", "t": "indexed", "n": out::num(palette.len()),
+                    "at": out::clamp(palette.as_ptr() as usize as i128 - (&*t as *const FramebufferTag).cast::<u8>() as usize as i128)}),
+            };
+            if v["k"] == "ok" {
+                v["v"]["rb_fb"] = rb;
+            }
+            v
+        }
         "elf" => boxed(c, || mk_elf(c), id_of::<ElfSectionsTag>()),
         "smbios" => boxed(c, || mk_smbios(c), id_of::<SmbiosTag>()),
         "network" => boxed(c, || mk_network(c), id_of::<NetworkTag>()),
